@@ -6,23 +6,13 @@
    reference; the table form and the "xor-then-step-zero" law are checked against it on every
    (state, octet) pair the configuration enumerates, and the law is what lets the harness check the
    library on all 2^24 pairs against the 65536-entry table  E0[c] = Step(c, 0)  that TLC emits.    *)
-EXTENDS Emit, Bitwise, SequencesExt
+EXTENDS Emit, CrcOps
 
 CONSTANTS Octets,      \* octets enumerated by the model (0..255 in the thorough configuration)
           HostLE       \* 1 iff the host stores the low octet of a 16-bit word first
 
 VARIABLES crc, ev
 
-(* reference: one bit at a time *)
-StepBit(c) == IF c % 2 = 1 THEN (c \div 2) ^^ 40961 ELSE c \div 2
-Step8(c) == StepBit(StepBit(StepBit(StepBit(StepBit(StepBit(StepBit(StepBit(c))))))))
-Step(c, d) == Step8(c ^^ d)            \* d enters the low octet of the register
-
-(* table form (what implementations use) *)
-Tab == [i \in 0..255 |-> Step8(i)]
-StepT(c, d) == (c \div 256) ^^ Tab[(c ^^ d) % 256]
-
-Buffer(c, s) == FoldLeft(LAMBDA acc, d : StepT(acc, d), c, s)
 RECURSIVE Image(_)
 Image(ws) == IF ws = <<>> THEN <<>>
              ELSE (IF HostLE = 1 THEN <<Head(ws) % 256, Head(ws) \div 256>>
